@@ -897,7 +897,10 @@ def run_corpus(ctx, case):
                                      gnu['symoffset'] if gnu else None, heur)
         X['hashnote'] += '; next-pointer estimate=%r' % heur
     names = [s['name'] for s in syms]
-    queries = sorted(set(names[:3] + names[-3:] + ['zz_absent_symbol']))
+    # names borne by several symbols first (versioned libraries define foo@V1 and foo@@V2), the absent name last: a look-up that misses may
+    # make the object build what later look-ups use
+    dups = [nm for nm in dict.fromkeys(names) if nm and names.count(nm) > 1]
+    queries = list(dict.fromkeys(dups[:3] + names[-3:] + names[:3] + ['zz_absent_symbol']))
     containers = {'stripped': I.strip_headers(data, rd.cls, rd.le)}
     if have_sections:
         containers['full'] = data
